@@ -36,6 +36,7 @@ DECIDED = [
     "C16.6 trie node primitives (check/get/set child, traversal yields the node and all descendants)",
     "C16.7 every visit registration goes to the register its name says, for (node, worker); registers start empty and are per node",
     "C16.8 graph-level lookups: get_nodes/get_objects and the *_by_restr pair agree; unique = exactly one; get_nodes_by_name = the index lookup",
+    "C16.2g register sharing is transitive over bridges; C16.2s bridging sites and direction (the fresh node adopts the registers)",
 ]
 NOT_DECIDED = ["exactness of get() for all name sets and queries (data-structure correctness needs a model)"]
 MIN_INSTANCES = 14
